@@ -36,7 +36,7 @@ fn fail(v: &mut Vec<Value>, x: Value) {
 fn events() -> Vec<(&'static str, Value)> {
     vec![
         ("message", json!({"type": "m.room.message", "room_id": "!r:a.org", "sender": "@u:a.org", "origin_server_ts": 1, "depth": 3,
-            "prev_events": [], "auth_events": [], "content": {"body": "hello", "msgtype": "m.text"}, "unsigned": {"age": 1}, "extra": "x"})),
+            "prev_events": [], "auth_events": [], "content": {"body": "hello", "msgtype": "m.text"}, "unsigned": {"age": 1}, "extra": "x", "age_ts": 100, "origin": "a.org"})),
         ("member_join", json!({"type": "m.room.member", "room_id": "!r:a.org", "sender": "@u:a.org", "state_key": "@u:a.org", "origin_server_ts": 2,
             "depth": 4, "prev_events": [], "auth_events": [], "content": {"membership": "join", "displayname": "U"}, "unsigned": {"age": 1}})),
         ("power_levels", json!({"type": "m.room.power_levels", "room_id": "!r:a.org", "sender": "@u:a.org", "state_key": "", "origin_server_ts": 3,
@@ -144,6 +144,48 @@ pub fn run(_tier: &str) -> Report {
         }
     }
 
+    // ---------------- every key version: the version is free text, signing then verifying succeeds whatever characters it has,
+    // and an invalid signature under any key id of an entity with a supplied key is never skipped
+    for version in ["1", "a_b", "auto-2", "key.v2", "a+b/c", "é", "x y", "v:1"] {
+        cases += 1;
+        let kp = keypair(version);
+        let (_, ev) = &events()[0];
+        let mut o = obj(ev.clone());
+        sign_json("a.org", &a1, &mut o).unwrap();
+        if sign_json("a.org", &kp, &mut o).is_err() {
+            fail(&mut f_roundtrip, json!({"key_version": version, "why": "sign_json failed"}));
+            continue;
+        }
+        let mut keys = PublicKeyMap::new();
+        add_key(&mut keys, "a.org", &a1);
+        add_key(&mut keys, "a.org", &kp);
+        let mut only_new = PublicKeyMap::new();
+        add_key(&mut only_new, "a.org", &kp);
+        let mut only_this = obj(ev.clone());
+        sign_json("a.org", &kp, &mut only_this).unwrap();
+        if verify_json(&keys, &o).is_err() || verify_json(&only_new, &only_this).is_err() {
+            fail(&mut f_roundtrip, json!({"key_version": version, "why": "sign then verify with the matching public key failed"}));
+        }
+        // the signature stored under this key id is replaced by another valid-looking one (the signature made by the other key)
+        let mut t = o.clone();
+        if let Some(CanonicalJsonValue::Object(sigs)) = t.get_mut("signatures") {
+            if let Some(CanonicalJsonValue::Object(set)) = sigs.get_mut("a.org") {
+                match set.get("ed25519:1").cloned() {
+                    Some(other) => {
+                        set.insert(format!("ed25519:{version}"), other);
+                    }
+                    None => {
+                        fail(&mut f_keeps, json!({"key_version": version, "why": "the earlier signature of the same entity under ed25519:1 was lost"}));
+                        continue;
+                    }
+                }
+            }
+        }
+        if version != "1" && verify_json(&keys, &t).is_ok() {
+            fail(&mut f_roundtrip, json!({"key_version": version, "why": "an invalid signature under a key id whose public key was supplied is accepted"}));
+        }
+    }
+
     // ---------------- hash_and_sign_event / verify_event per room version
     let versions = [
         RoomVersionId::V1, RoomVersionId::V2, RoomVersionId::V3, RoomVersionId::V4, RoomVersionId::V5, RoomVersionId::V6, RoomVersionId::V7,
@@ -190,6 +232,49 @@ pub fn run(_tier: &str) -> Report {
             if verify_event(&keys, &kept, &rules).is_ok() {
                 fail(&mut f_event_kept, d("changing a kept field still verifies"));
             }
+            // every single-field mutation after signing: top-level keys and content keys replaced or removed. The expected
+            // outcome follows from the statement: if the redacted form is unchanged the field was only hashed -> Signatures,
+            // otherwise a signed field changed -> error.
+            let red0 = redact(o.clone(), &rules.redaction, None).unwrap();
+            let mut mutants: Vec<(String, CanonicalJsonObject)> = vec![];
+            for k in o.keys().filter(|k| !matches!(k.as_str(), "signatures" | "unsigned" | "hashes" | "content")) {
+                let mut m = o.clone();
+                m.insert(k.clone(), CanonicalJsonValue::String("mutated".to_owned()));
+                mutants.push((format!("{k} replaced"), m));
+                let mut m = o.clone();
+                m.remove(k);
+                mutants.push((format!("{k} removed"), m));
+            }
+            if let Some(CanonicalJsonValue::Object(c)) = o.get("content") {
+                for k in c.keys() {
+                    let mut c2 = c.clone();
+                    c2.insert(k.clone(), CanonicalJsonValue::String("mutated".to_owned()));
+                    let mut m = o.clone();
+                    m.insert("content".to_owned(), CanonicalJsonValue::Object(c2));
+                    mutants.push((format!("content.{k} replaced"), m));
+                    let mut c2 = c.clone();
+                    c2.remove(k);
+                    let mut m = o.clone();
+                    m.insert("content".to_owned(), CanonicalJsonValue::Object(c2));
+                    mutants.push((format!("content.{k} removed"), m));
+                }
+            }
+            for (what, m) in mutants {
+                cases += 1;
+                let got = verify_event(&keys, &m, &rules);
+                match redact(m.clone(), &rules.redaction, None) {
+                    Ok(r) if r == red0 => {
+                        if !matches!(got, Ok(Verified::Signatures)) {
+                            fail(&mut f_event_stripped, json!({"case": d(&format!("{what}: hashed field that redaction strips")), "got": format!("{:?}", got), "expected": "Ok(Signatures)"}));
+                        }
+                    }
+                    _ => {
+                        if got.is_ok() {
+                            fail(&mut f_event_kept, json!({"case": d(&format!("{what}: field that redaction keeps")), "got": format!("{:?}", got), "expected": "Err"}));
+                        }
+                    }
+                }
+            }
             // missing required signer
             let empty = PublicKeyMap::new();
             if verify_event(&empty, &o, &rules).is_ok() {
@@ -199,7 +284,7 @@ pub fn run(_tier: &str) -> Report {
     }
     let _ = BTreeMap::<u8, u8>::new();
     Report {
-        bound: "4 event shapes x room versions 1-11 x fixed single-field mutations (one redaction-stripped field, one kept field, unsigned) x 2 entities x 2 key versions, fresh random Ed25519 keys".to_owned(),
+        bound: "4 event shapes x room versions 1-11 x every top-level and content key replaced or removed after signing (plus one added field, unsigned) x 2 entities; sign_json with 8 key-version spellings incl. non-alphanumeric; fresh random Ed25519 keys".to_owned(),
         cases,
         obligations: vec![
             ("sign_then_verify_succeeds_and_tampering_fails", cases, f_roundtrip),
